@@ -26,6 +26,17 @@ def directive_text(dirs):
     return ', '.join('%s%s%s' % (s, n, '(%s)' % a if a else '') for s, n, a in dirs)
 
 
+SPELLINGS = ['xdoctest', 'xdoctest', 'xdoctest', 'doctest', 'xdoc', 'doc', 'XDOCTEST', 'XDoc']
+PROSE = ['Some prose between the examples.', 'Some prose between the examples.', 'Note:', 'Returns:', 'Example:']
+
+
+def directive_spelling(st):
+    """every documented spelling of the directive prefix, a fixed function of the step"""
+    if st.get('spelling'):
+        return st['spelling']
+    return SPELLINGS[(st['i'] * 7 + len(st.get('pts', [])) + len(st.get('dirs') or st.get('inline') or [])) % len(SPELLINGS)]
+
+
 def _L(*texts):
     return [(t, True) for t in texts]
 
@@ -97,7 +108,14 @@ def form_lines(st):
         # one or two prompt lines with nothing after them
         return _L(*([''] * st.get('n', 1)))
     if f == 'directive':
-        return _L("# xdoctest: %s" % directive_text(st['dirs']))
+        return _L("# %s: %s" % (directive_spelling(st), directive_text(st['dirs'])))
+    if f == 'coroexpr':
+        # an expression whose value is a coroutine object that nobody awaits: creating it
+        # runs nothing (no hit), and the runner must not run it either
+        return _L("S.aop('%s')" % p[0])
+    if f == 'regappend':
+        # uses an object made by the --global-exec snippet of the run (fresh for every doctest)
+        return _L("sim_reg%d = len(SIMREG.__iadd__(['%d']))" % (i, i))
     if f == 'await':
         return _L("sim_aw%d = await S.aop('%s')" % (i, p[0]))
     if f == 'awaitexpr':
@@ -195,7 +213,7 @@ def form_out(st):
     return []
 
 
-EXPR_FORMS = {'expr', 'print', 'emit', 'emitnoeol', 'say', 'multiline', 'semiemit', 'tqprint', 'callhelper_expr', 'callhelper_emit',
+EXPR_FORMS = {'expr', 'print', 'emit', 'emitnoeol', 'coroexpr', 'say', 'multiline', 'semiemit', 'tqprint', 'callhelper_expr', 'callhelper_emit',
               'callmod_expr', 'awaitexpr', 'awaitprint', 'names', 'emitop'}
 VALUE_FORMS = {'expr': 0, 'multiline': 0, 'callhelper_expr': 0, 'callmod_expr': 0, 'awaitexpr': 0, 'emitop': 0}
 NOCODE_FORMS = {'comment', 'directive', 'blankprompt'}
@@ -293,6 +311,9 @@ def want_lines_for(st, window_nominal):
         return text.rstrip('\n').split('\n')
     elif w == 'text':
         text = 'SomeWantText%d\n' % st['i']
+    elif w == 'coro':
+        # repr of a coroutine object up to its address
+        text = '<coroutine object Peer.aop at ...>\n'
     elif w == 'ell':
         # the statement's own (single) output line with its tail replaced by an
         # ellipsis: satisfied exactly when ELLIPSIS is on
@@ -359,7 +380,8 @@ def render_doctest(dt, indent, out, lineno0, env=None, defaults=None):
                 out.append('')
             elif sep == 'prose':
                 out.append('')
-                out.append(base_pad + 'Some prose between the examples.')
+                # (a prose line may look like a section header: inside an example block it is text)
+                out.append(base_pad + (PROSE[st['i'] % len(PROSE)] if dt.get('header_prose') else PROSE[0]))
                 out.append('')
         first = False
         lines = form_lines(st)
@@ -369,7 +391,7 @@ def render_doctest(dt, indent, out, lineno0, env=None, defaults=None):
         for j, (text, prefixed) in enumerate(lines):
             if inline and ((st.get('inline_at', 'last') == 'last' and j == n - 1) or
                            (st.get('inline_at') == 'first' and j == 0)):
-                text = text + '  # xdoctest: ' + inline
+                text = text + '  # %s: ' % directive_spelling(st) + inline
             if not prefixed:
                 out.append(pad + '    ' + text)
             elif j == 0 or not st.get('ps2'):
